@@ -11,7 +11,10 @@ left fold over the ordered source list (the reference model, `fold()` below):
 with three update rules: plain assignment replaces (also whole lists and dicts), `key+` appends to the list built
 so far, `key.item` sets one item of the dict built so far; a group value (`n: {x: ..}`) merges leaf-wise.
 
-Every value encodes the source that wrote it, so the winner of every key is identifiable.  Every case builds a
+Every value encodes the source that wrote it, so the winner of every key is identifiable.  In addition every source
+class also occurs with EMPTY content - the empty value of every key type ("" / 0 / [] / {}), the document {}, default
+config files of 0 bytes / whitespace only, environment variables that are present with an empty value - because
+"given but empty" must override like any other value and an empty file must not stop the files after it.  Every case builds a
 fresh parser, fresh files in a fresh scratch directory and a private environment.  Because the command line
 sequences of every length up to the bound are enumerated, every prefix of every sequence is a case of its own and
 the comparison therefore holds at every intermediate state of the fold.
@@ -38,7 +41,8 @@ META = {
     "space is prefix closed, so the agreement holds at every intermediate state. Nothing is sampled.",
     "level_note": "Trusted: the fold in this file, the rendering of one abstract source into files / environment / argv, "
     "value encoding (every source writes values that name it). Bounded: command line length, four payload kinds per "
-    "config source, five keys (flat int, two leaves of one group, List[int], Dict[str,int]); deeper command lines "
+    "config source plus the empty kinds (empty values, {}, empty default config files), seven keys (flat int, flat "
+    "str, two leaves of one group, List[int], int list with nargs='+', Dict[str,int]); deeper command lines "
     "are explored on a reduced set of non-CLI configurations (stated in the evidence).",
     "design_ref": "DESIGN.md §5 C04",
 }
@@ -46,11 +50,13 @@ META = {
 # ------------------------------------------------------------------------------------------------
 # the key universe, the values, the payload kinds
 
-KEYS = ["a", "n.x", "n.y", "l", "d", "t"]
+KEYS = ["a", "n.x", "n.y", "l", "d", "t", "m"]
 # t is a str-typed flat key: the only kind of key for which the empty string is a valid value.  Its values name the
-# writer like the integers do ("v11" = written by D1, "v6" = code default)
-CODE_DEFAULTS = {"a": 1, "n.x": 2, "n.y": 3, "l": [4], "d": {"p": 5}, "t": "v6"}
-UNSET_DEFAULTS = {"a": 1, "n.x": 2, "n.y": 3, "l": None, "d": None, "t": "v6"}  # shape flat0: list / dict not built yet
+# writer like the integers do ("v11" = written by D1, "v6" = code default).  m is the other kind of list-typed key:
+# an argparse list (type=int, nargs="+"), which has no "m+" form and goes through a code path of its own when it comes
+# from an environment variable
+CODE_DEFAULTS = {"a": 1, "n.x": 2, "n.y": 3, "l": [4], "d": {"p": 5}, "t": "v6", "m": [7]}
+UNSET_DEFAULTS = {"a": 1, "n.x": 2, "n.y": 3, "l": None, "d": None, "t": "v6", "m": [7]}  # shape flat0: list / dict not built yet
 
 # value written by each non-CLI source (the tens digit names the source)
 VAL = {"D1": 11, "Ga": 21, "Gb": 22, "D3": 31, "envcfg": 41, "envvar": 51, "given": 56}
@@ -69,7 +75,7 @@ def cli_value(pos):
 def payload(kind, v):
     """JSON document of one config source of the given kind carrying the value v."""
     if kind == "R":  # replaces everything it mentions (the dict as a whole; the group leaf-wise)
-        return {"a": v, "n": {"x": v}, "l": [v], "d": {"k": v, f"s{v}": v}, "t": f"v{v}"}
+        return {"a": v, "n": {"x": v}, "l": [v], "d": {"k": v, f"s{v}": v}, "t": f"v{v}", "m": [v]}
     if kind == "A":  # appends a list to the list built so far, sets the other leaf of the group
         return {"l+": [v], "n": {"y": v}}
     if kind == "A1":  # appends a single element, replaces the flat key
@@ -77,7 +83,7 @@ def payload(kind, v):
     if kind == "N":  # whole group and a dict only
         return {"n": {"x": v, "y": v}, "d": {f"s{v}": v}}
     if kind == "Z":  # plain assignments of the EMPTY value of every key type (all falsy in Python)
-        return {"a": 0, "n": {"x": 0}, "l": [], "d": {}, "t": ""}
+        return {"a": 0, "n": {"x": 0}, "l": [], "d": {}, "t": "", "m": []}
     if kind in ("E", "E0", "EW"):  # a document that assigns nothing: "{}" / a file of 0 bytes / a whitespace-only file
         return {}
     raise AssertionError(kind)
@@ -128,13 +134,13 @@ def fold(initial, sources):
 CLI_ITEMS = ["a", "n.x", "n.y", "l", "l+", "l+2", "d", "d.k", "cfgfile:R", "cfgfile:A", "cfgstr:R", "cfgstr:A"]
 CLI_EXTRA = ["cfgfile:A1", "cfgstr:N", "d.p", "n", "nfile"]  # used in the secondary blocks (n, nfile: shape dc)
 # items that assign the empty value of a key type / give a document that assigns empty values or nothing at all
-# (t: the str key with a non-empty value), used in the "empty-values" blocks
-CLI_EMPTY = ["t", "t0", "a0", "l0", "d0", "cfgstr:Z", "cfgfile:Z", "cfgstr:E", "cfgfile:E"]
+# (t: the str key with a non-empty value; m, m2: the nargs list with one / two values), used in the "empty-values" blocks
+CLI_EMPTY = ["m", "m2", "t", "t0", "a0", "l0", "d0", "cfgstr:Z", "cfgfile:Z", "cfgstr:E", "cfgfile:E"]
 ROOT_ITEMS = ["rootcfgfile:R", "rootcfgfile:A", "rootcfgstr:R", "rootcfgstr:A"]  # subcommand shape, before the subcommand
 
 
 def cli_item(name, pos, shape, d):
-    """-> (argv token, [(key, op, value)...], files to write {name: json})."""
+    """-> (argv token or list of tokens, [(key, op, value)...], files to write {name: json})."""
     v = cli_value(pos)
     files = {}
     if name == "a":
@@ -143,6 +149,10 @@ def cli_item(name, pos, shape, d):
         return f"--t=v{v}", [("t", "set", f"v{v}")], files
     if name == "t0":
         return "--t=", [("t", "set", "")], files
+    if name == "m":
+        return f"--m={v}", [("m", "set", [v])], files
+    if name == "m2":  # several argv tokens
+        return ["--m", str(v), str(v + 1)], [("m", "set", [v, v + 1])], files
     if name == "a0":
         return "--a=0", [("a", "set", 0)], files
     if name == "l0":
@@ -199,6 +209,7 @@ def add_keys(parser, shape, J):
     parser.add_argument("--cfg", action=J.ActionConfigFile)
     parser.add_argument("--a", type=int, default=1)
     parser.add_argument("--t", type=str, default="v6")
+    parser.add_argument("--m", type=int, nargs="+", default=[7])
     if shape == "dc":
         parser.add_argument("--n", type=NGroup, default=NGroup())
     else:
@@ -310,6 +321,12 @@ def noncli_sources(case):
         elif key == "t0":
             environ[pre + "T"] = ""
             ev.append(("t", "set", ""))
+        elif key == "m":
+            environ[pre + "M"] = f"[{v}]"
+            ev.append(("m", "set", [v]))
+        elif key == "m0":
+            environ[pre + "M"] = "[]"
+            ev.append(("m", "set", []))
         elif key == "a0":
             environ[pre + "A"] = "0"
             ev.append(("a", "set", 0))
@@ -340,7 +357,7 @@ ABSENT = "<absent>"
 
 
 def extract(case, cfg):
-    """Read the five keys out of the parsed namespace: plain values, typed canonical forms, unexpected keys."""
+    """Read the keys out of the parsed namespace: plain values, typed canonical forms, unexpected keys."""
     from mc.util import tcanon
 
     ns = cfg
@@ -409,7 +426,7 @@ def observe(base, clis):
                             written.add(fn)
                             with open(os.path.join(d, fn), "w") as f:
                                 json.dump(doc, f)
-                    argv.append(tok)
+                    argv.extend(tok if isinstance(tok, list) else [tok])
                     sources.append(("cli:" + name.split(":")[0], assigns))
                 if not sub_started:
                     argv.append("s")
@@ -470,7 +487,7 @@ def _src_of(value):
 
 
 def ktype(key):
-    return {"a": "flat", "n.x": "nested", "n.y": "nested", "l": "list", "d": "dict", "t": "str"}[key]
+    return {"a": "flat", "n.x": "nested", "n.y": "nested", "l": "list", "d": "dict", "t": "str", "m": "list"}[key]
 
 
 def describe(key, prev, expected, got, sub=False):
@@ -540,7 +557,7 @@ PHYSICAL = ["D1", "Ga", "Gb", "D3", "envcfg", "envvars", "given"]
 # history is executed with the NON-EMPTY twin of the source in question (same keys, same position); if that
 # assignment is applied, the cause is the emptiness of the value and not the position of the source
 NO_EFFECT_EMPTY = "assignment-of-an-empty-value-had-no-effect"
-TWIN = {"t0": "t", "a0": "a", "n.x0": "n.x", "l0": "l", "d0": "d", "cfgstr:Z": "cfgstr:R", "cfgfile:Z": "cfgfile:R",
+TWIN = {"m0": "m", "t0": "t", "a0": "a", "n.x0": "n.x", "l0": "l", "d0": "d", "cfgstr:Z": "cfgstr:R", "cfgfile:Z": "cfgfile:R",
         "rootcfgstr:Z": "rootcfgstr:R", "rootcfgfile:Z": "rootcfgfile:R"}  # fmt: skip
 
 
@@ -855,8 +872,8 @@ def dcf_configs(level):
     raise AssertionError(level)
 
 
-ENVVARS_ALL = ["a", "n.x", "l", "d", "t"]
-ENVVARS_EMPTY = ["a0", "n.x0", "l0", "d0", "t0"]  # every variable present, carrying the empty value of its type
+ENVVARS_ALL = ["a", "n.x", "l", "d", "t", "m"]
+ENVVARS_EMPTY = ["a0", "n.x0", "l0", "d0", "t0", "m0"]  # every variable present, carrying the empty value of its type
 
 
 def env_configs(level):
@@ -1021,9 +1038,13 @@ def plan(ctx):
     E1 = ["t0", "a0", "l0", "d0", "l+", "d.k", "cfgstr:Z"]
     E2 = CLI_EMPTY + ["l+", "d.k"]
     blocks.append(("empty-values-wide", list(empties_bases("flat")), list(sequences(E1 if quick else E2, 1))))
-    blocks.append(("empty-values-cli", list(empties_bases("flat", small="diag")), list(sequences(E2, 2 if quick else 3))))
+    diag = list(empties_bases("flat", small="diag"))
+    blocks.append(("empty-values-cli", diag, list(sequences(E2, 2))))
     if not quick:
         blocks.append(("empty-values-cli2", list(empties_bases("flat", small=True)), list(sequences(E2, 2))))
+        # all sources absent / all standard / all empty x sequences of three
+        line = [b for b in diag if {"": None, "R": "R", "Z": "Z"}[b["dcf"].get("D1", "")] == (b["envcfg"] or [None])[0]]
+        blocks.append(("empty-values-cli3", line, list(sequences(E2, 3))))
     for shape in ("dc", "flat0"):
         blocks.append((f"empty-values-{shape}", list(empties_bases(shape, small="diag" if quick else True)), list(sequences(E2, 1 if quick else 2))))
     # B8c the other parse methods and the environment switches on the same bases
